@@ -531,6 +531,13 @@ func c36RunLayout(env *c36Env, caseNo int) error {
 	}
 	shape := fmt.Sprintf("parts=%d segs=%d ti=%v side=%s man=%s", len(l.Parts), len(l.Segs), l.TimeIndex, l.SidecarSel, l.Manifest)
 	r.Seen("layout_shapes", shape)
+	r.Count("partitions_started_relative_to_earlier_segment", int64(l.Aligned))
+	if len(c36ForeignSuccessors(l, true)) > 0 {
+		r.Count("layouts_with_next_partition_starting_inside_a_last_segment", 1)
+	}
+	if len(c36ForeignSuccessors(l, false)) > 0 {
+		r.Count("layouts_with_next_topic_starting_inside_a_last_segment", 1)
+	}
 
 	for qi := 0; qi < env.queries; qi++ {
 		if qi == env.queries/2 && !l.ResCache && l.DiscTTL < 0 && l.Manifest == "" {
@@ -613,6 +620,18 @@ func c36RunLayout(env *c36Env, caseNo int) error {
 		holds := map[string]bool{}
 		for _, m := range M {
 			holds[m.SegKey] = true
+		}
+		if q.OffMin != nil {
+			// the listing successor of a matching segment belongs to another partition/topic and starts
+			// inside the segment, and the lower offset bound lies at or above that successor's base
+			for _, same := range []bool{true, false} {
+				for key, nb := range c36ForeignSuccessors(l, same) {
+					if s := segByKey[key]; s != nil && holds[key] && *q.OffMin >= nb {
+						r.Count(map[bool]string{true: "queries_with_offset_floor_at_or_above_next_partition_base", false: "queries_with_offset_floor_at_or_above_next_topic_base"}[same], 1)
+						break
+					}
+				}
+			}
 		}
 		skippable, skipped, needed := 0, 0, 0
 		for _, s := range l.Segs {
@@ -710,7 +729,7 @@ func c36RunLayout(env *c36Env, caseNo int) error {
 
 func TestVerifC36(t *testing.T) {
 	r := verifkit.Start(t, "C36", "sql")
-	defer r.Finish("per PRNG layout (1-3 partitions x 1-6 segments in the broker's segment format on a loopback S3, decoy topics, in-flight/orphan/truncated segments, time-index side-cars built by the repo's TimeIndexBuilder and kept for a subset, optional manifest built by the repo's ManifestBuilder, discovery/result caches on or off) the real server.Server with the real discovery.New lister and decoder.New decoder answers generated single-topic SELECTs over pgproto3 (simple and extended protocol; in uncached layouts more segments arrive and in-flight ones complete half-way through); every answer is compared with the direct filtering of the generated record list: returned rows are matching records of completed segments, once each, with the record's own cell values; the set is exact when nothing cuts it, has min(n,|M|) rows under LIMIT, is ts-monotone with the right ts multiset under ORDER BY _ts, and is the partition-wise last rows under TAIL; count(*) equals |M|. The S3 request log tells which segments each query read (non-trivial = rows returned, a proper subset matched, and at least one segment was left unread).",
+	defer r.Finish("per PRNG layout (1-3 partitions x 1-6 segments in the broker's segment format on a loopback S3; partitions start at 0, at a retention-trimmed offset, beyond int32, or - two of three later partitions, one of three decoy topics - at an offset placed inside / on the borders of a segment of the partition listed before them, so that partitions are uneven and a partition's last segment is followed in the listing by a foreign segment whose base offset lies inside it; decoy topics, in-flight/orphan/truncated segments, time-index side-cars built by the repo's TimeIndexBuilder and kept for a subset, optional manifest built by the repo's ManifestBuilder, discovery/result caches on or off) the real server.Server with the real discovery.New lister and decoder.New decoder answers generated single-topic SELECTs (every third one with a lower offset bound inside the last completed segment of one partition) over pgproto3 (simple and extended protocol; in uncached layouts more segments arrive and in-flight ones complete half-way through); every answer is compared with the direct filtering of the generated record list: returned rows are matching records of completed segments, once each, with the record's own cell values; the set is exact when nothing cuts it, has min(n,|M|) rows under LIMIT, is ts-monotone with the right ts multiset under ORDER BY _ts, and is the partition-wise last rows under TAIL; count(*) equals |M|. The S3 request log tells which segments each query read (non-trivial = rows returned, a proper subset matched, and at least one segment was left unread).",
 		"records carry timestamps 2001..2014 and the machine clock is later than that (only used by the rare LAST 1s / LAST 36500d queries, whose expected result does not depend on the clock otherwise)",
 		"completed segment = .kfs and .index objects both present and the .kfs ends in the END! trailer (the broker uploads .kfs then .index)",
 		"topic names are lower case (the SQL front end folds identifiers to lower case like PostgreSQL)",
@@ -735,11 +754,13 @@ func TestVerifC36(t *testing.T) {
 	}
 	defer s3.Close()
 	scratch := t.TempDir()
-	env := &c36Env{s3: s3, r: r, scratch: scratch, queries: r.N(14, 30)}
-	layouts := r.N(28, 200)
+	env := &c36Env{s3: s3, r: r, scratch: scratch, queries: r.N(16, 30)}
+	layouts := r.N(36, 200)
 	r.Floor("queries_that_skipped_with_time_filter", int64(r.N(10, 100)))
 	r.Floor("queries_that_skipped_with_offset_filter", int64(r.N(10, 100)))
 	r.Floor("rows_checked", int64(r.N(500, 5000)))
+	r.Floor("layouts_with_next_partition_starting_inside_a_last_segment", int64(r.N(3, 20)))
+	r.Floor("queries_with_offset_floor_at_or_above_next_partition_base", int64(r.N(2, 15)))
 
 	jobs := make(chan int)
 	var errMu sync.Mutex
